@@ -1632,6 +1632,35 @@ func (d *Driver) finalSweep(ctx context.Context) {
 
 // checkPost compares the rewritten top-level _outs and the outs/ tree with
 // what PostProc.tla says (C13).
+// postDup: does the expected record name this file more than once?
+func (d *Driver) postDup(f FileRef) bool {
+	var v interface{}
+	if json.Unmarshal(d.spec.Post, &v) != nil {
+		return false
+	}
+	n := 0
+	var walk func(x interface{})
+	walk = func(x interface{}) {
+		switch t := x.(type) {
+		case map[string]interface{}:
+			if t["k"] == "file" && t["p"] == f.Producer && t["n"] == f.Name {
+				if c, ok := t["c"].(float64); ok && int(c) == f.Chunk {
+					n++
+				}
+			}
+			for _, y := range t {
+				walk(y)
+			}
+		case []interface{}:
+			for _, y := range t {
+				walk(y)
+			}
+		}
+	}
+	walk(v)
+	return n > 1
+}
+
 func (d *Driver) checkPost() {
 	if len(d.spec.Post) == 0 {
 		return
@@ -1686,6 +1715,11 @@ func (d *Driver) walkPost(where string, exp json.RawMessage, act interface{}) {
 		// outputs that are symbolic links, and files whose reported name lies outside the
 		// pipestance, get a link under outs/ and keep their value
 		link := strings.HasSuffix(f.Name, ".lnk") || strings.HasSuffix(f.Name, ".lnk2") || strings.HasSuffix(f.Name, ".plnk") || d.outsideOf[f.Key()]
+		// a file returned under several names is moved for one of them; for the others the
+		// stage's file has become a link by then
+		if d.postDup(f) {
+			link = true
+		}
 		ckey := f.Key()
 		for {
 			a, ok := d.aliasOf[ckey]
